@@ -12,6 +12,7 @@ import (
 	"math"
 	"os"
 	"reflect"
+	"strings"
 	"testing"
 	"unsafe"
 )
@@ -263,3 +264,34 @@ func AllocCount() int { return 0 }
 // Allocs is the number of heap allocations one call of f performs, in steady
 // state (natively measured with testing.AllocsPerRun).
 func Allocs(f func()) int { return int(testing.AllocsPerRun(20, f)) }
+
+// PrimePool is a no-op for the executor (which models sync.Pool.Get as
+// returning arbitrary contents). Natively, during a replay, it leaves in the
+// package's pooled scratch slice the contents the solver chose for the k-th
+// Get: it calls f with a string whose '/'-separated parts are those contents
+// (the v2.0 parser splits its input into the pooled slice before validating).
+func PrimePool(k int, f func(string)) {
+	if cur == nil {
+		return
+	}
+	parts := make([]string, 0, 14)
+	for i := 0; i < 14; i++ {
+		name := fmt.Sprintf("pool%d_%d", k, i)
+		l, ok := val(name + "_len")
+		if !ok {
+			parts = append(parts, "")
+			continue
+		}
+		n := int(l)
+		if n > 2 {
+			n = 2
+		}
+		b := make([]byte, n)
+		for j := range b {
+			v, _ := val(fmt.Sprintf("%s_b%d", name, j))
+			b[j] = byte(v)
+		}
+		parts = append(parts, string(b))
+	}
+	f(strings.Join(parts, "/"))
+}
